@@ -63,3 +63,53 @@ package fluentdforward
 //@   requires validpacker(packer) && record != nil && len(packer.fieldMasks) <= len(record.Fields) && len(packer.buffer) == 2 * defs.InputLogMaxRecordBytes
 //@   modifies packer.buffer[:], record.Unescaped
 //@   ensures  len(result) <= len(packer.buffer)
+
+// ==== chunks (C11) ==========================================================================================================
+//@ ghost var lastparams encodeChunkParams
+
+//@ extern func (e encoder) EncodeChunk(data []byte, params *encodeChunkParams) ([]byte, error)
+//@   requires params != nil
+//@   modifies lastparams
+//@   ghostset lastparams := *params
+//@   ensures  lastparams.NumRecords == params.NumRecords && lastparams.ID === params.ID && lastparams.IsCompressed == params.IsCompressed
+//@   ensures[in-memory-writers-do-not-fail] result.1 == nil
+
+//@ pure func canfit(c *intermediateChunk, n int) bool :=
+//@     (c.maxRecords > 0 ==> c.numRecords < c.maxRecords) && (c.maxBytes > 0 ==> c.numBytes + n <= c.maxBytes)
+// "no chunk exceeds the size and record limits unless a single record alone does"
+//@ pure func limitsok(c *intermediateChunk) bool :=
+//@     c.numRecords <= 1 || ((c.maxBytes > 0 ==> c.numBytes <= c.maxBytes) && (c.maxRecords > 0 ==> c.numRecords <= c.maxRecords))
+//@ pure func cwriter(c *intermediateChunk) int := c.compressor != nil ? ref(c.compressor) : ref(c.writeBuffer)
+// numBytes is exactly the number of payload bytes handed to the chunk's writer
+//@ pure func validchunk(c *intermediateChunk) bool :=
+//@     c != nil && c.writeBuffer != nil && c.numRecords >= 0 && c.numBytes >= 0 && limitsok(c) && c.numBytes == wbytes[cwriter(c)]
+
+//@ func (chunk *intermediateChunk) CanAppendData(dataLength int) bool
+//@   requires chunk != nil
+//@   ensures  result <==> canfit(chunk, dataLength)
+
+//@ func (chunk *intermediateChunk) Write(data base.LogStream) error
+//@   requires validchunk(chunk) && (chunk.numRecords == 0 || canfit(chunk, len(data)))
+//@   modifies chunk.numRecords, chunk.numBytes, wbytes[cwriter(chunk)]
+//@   ensures  result == nil ==> validchunk(chunk)
+//@   ensures  result == nil ==> chunk.numRecords == old(chunk.numRecords) + 1 && chunk.numBytes == old(chunk.numBytes) + len(data)
+//@   ensures  result != nil ==> chunk.numRecords == old(chunk.numRecords)
+//@   canary ensures result == nil ==> chunk.numRecords == old(chunk.numRecords)
+
+// self-describing: the encoder is given this chunk's id, record count and compression flag; the chunk carries the id
+//@ func (chunk *intermediateChunk) FinalizeChunk() (*base.LogChunk, error)
+//@   requires validchunk(chunk)
+//@   modifies lastparams, wbytes[ref(chunk.writeBuffer)]
+//@   ensures  result.1 == nil ==> result.0 != nil && result.0.ID === chunk.id && !result.0.Saved
+//@   ensures  result.1 == nil && chunk.encoder != nil ==> lastparams.NumRecords == chunk.numRecords && lastparams.ID === chunk.id
+//@                                                     && lastparams.IsCompressed == (chunk.compressor != nil)
+
+//@ func (enc *chunkEncoder) EncodeChunk(data []byte, params *encodeChunkParams) ([]byte, error)
+//@   requires enc != nil && enc.msgpackEncoder != nil && enc.msgpackEncoderBuffer != nil && params != nil
+//@   modifies lastarrlen, laststr, lastenc, wbytes[ref(enc.msgpackEncoderBuffer)]
+//@   ensures[tag] result.1 == nil ==> laststr === enc.tag
+//@   ensures[option] result.1 == nil ==> typeis(lastenc, forwardprotocol.TransportOption)
+//@        && as(lastenc, forwardprotocol.TransportOption).Size == params.NumRecords && as(lastenc, forwardprotocol.TransportOption).Chunk === params.ID
+//@        && (len(as(lastenc, forwardprotocol.TransportOption).Compressed) > 0 <==> params.IsCompressed)
+//@   canary ensures result.1 == nil ==> as(lastenc, forwardprotocol.TransportOption).Size == params.NumRecords + 1
+//@   ensures[forward-mode-array-length] result.1 == nil && enc.asArray ==> lastarrlen == params.NumRecords
